@@ -571,6 +571,11 @@ fn main() {
     let mut config = Config::default();
     config.global.prefix = FileName::new(prefix.as_bytes()).unwrap();
     config.global.set_root_path(&Path::new(root.as_bytes()).unwrap());
+    // every port allocates a slot map of (expired-connection buffer + peers) connection records and initialises all of
+    // them: with the default buffer of 128 that is the dominant (memory-bandwidth bound) cost of a history.  32 is far
+    // more than two peer slots can accumulate here; the model assumes the buffer never overflows.
+    config.defaults.request_response.client_expired_connection_buffer = 32;
+    config.defaults.request_response.server_expired_connection_buffer = 32;
     let mut out = Out { w: std::io::BufWriter::with_capacity(1 << 20, std::io::stdout()) };
     let rc = catch_unwind(AssertUnwindSafe(|| match (a[1].as_str(), a[2].as_str()) {
         ("churn", "ipc") => churn::<ipc::Service>(&a, &config, &mut out),
